@@ -3586,8 +3586,13 @@ subset_case(long idx)
 		} else if (!reg && !dynamic && n != 0) {
 			snprintf(key, sizeof(key), "C14/subset/%s-without-callback", evn3[e]);
 			vf_violation(key, "an event without a registered callback was delivered (%s, %d times)", evn3[e], n);
-		} else if (!reg && dynamic && (n > 1 || n != before[e])) {
-			snprintf(key, sizeof(key), "C14/subset/%s-after-removal", evn3[e]);
+		} else if (!reg && dynamic && n > 1) {
+			// (an event whose callback was taken away while the pipe was alive
+			// may still be delivered once: ADD_POST is delivered after the pipe
+			// is in service, and a delivery that has already picked the callback
+			// up is not recalled by nng_pipe_notify - the property promises
+			// neither)
+			snprintf(key, sizeof(key), "C14/subset/%s-repeated/others-removed", evn3[e]);
 			vf_violation(key, "%s fired %d times (%d before its callback was removed)", evn3[e], n, before[e]);
 		}
 	}
